@@ -636,6 +636,24 @@ theorem reproduces_polynomials_2d_partial (bisq : Bool) (h : ℚ) (hh : h ≠ 0)
     interval_cases d <;>
       simp [taylor2, monos2, List.range_succ, Finset.sum_range_succ, Nat.choose] <;> ring
 
+/-- A common factor of the weights does not change the estimate —
+why the normalising constants of the kernels are irrelevant for the fit, and why the driver
+may normalise the Gaussian weights of a window by the largest one. -/
+theorem weights_scale_invariant (n p : ℕ) (hp : 0 < p) (w : ℕ → ℚ) (D : ℕ → ℕ → ℚ) (y : ℕ → ℚ) (c v v' : ℚ)
+    (hv : lpEstimate n p w D y = some v)
+    (hv' : lpEstimate n p (fun i => c * w i) D y = some v') : v' = v := by
+  obtain ⟨β, hs, hβ, _⟩ := lpEstimate_spec hp hv
+  have hs' : IsSol p (normalMat n (fun i => c * w i) D) (normalRhs n (fun i => c * w i) D y) β := by
+    rw [isSol_iff] at hs ⊢
+    intro a ha
+    have e : ∀ z : ℕ → ℚ, ∑ i ∈ range n, D i a * (c * w i) * z i = c * ∑ i ∈ range n, D i a * w i * z i := by
+      intro z
+      rw [Finset.mul_sum]
+      apply Finset.sum_congr rfl
+      intro i _; ring
+    rw [e, e, hs a ha]
+  rw [lpEstimate_eq_of_sol hp hv' hs', hβ]
+
 /-! ### Non-vacuity: the hypotheses of the theorems above are met by concrete data -/
 
 /-- A well-posed local problem: three points, Epanechnikov, `h = 2`, degree 1, query `1`. -/
@@ -687,5 +705,9 @@ example : lpEstimate2 false 2 1 5 (ofList [0, 1, 0, 1, 1 / 2]) (ofList [0, 0, 1,
 /-- `reproduces_polynomials_2d_partial`: `y = 1 + 2 x₁ + 3 x₂` on five points, degree 1. -/
 example : lpEstimate2 false 2 1 5 (ofList [0, 1, 0, 1, 1 / 2]) (ofList [0, 0, 1, 1, 1 / 2]) (ofList [1, 3, 4, 6, 7 / 2])
     (1 / 2) (1 / 2) = some (7 / 2) := by
+  decide +kernel
+/-- `weights_scale_invariant`: the first example with all weights doubled. -/
+example : lpEstimate 3 2 (fun i => 2 * weight1 .epanechnikov 2 (ofList [0, 1, 2] i) 1) (design1 2 (ofList [0, 1, 2]) 1)
+    (ofList [1, 2, 4]) = some (23 / 10) := by
   decide +kernel
 end C06
